@@ -1,5 +1,388 @@
-import BSModel.Model.EncodingIn
+import BSModel.Proofs.EncodingIn
+import BSModel.Gen.EncodingIn
+/-! # C07 — encoding detection follows the documented precedence and decodes exactly
+
+Property theorems only. `encodingsImpl`/`dammit`/`prepareMarkup` are the code-mirror of
+`EncodingDetector.encodings`, `UnicodeDammit.__init__` and `HTMLParserTreeBuilder.prepare_markup`
+(repaired code, see the model's header); `candidates`/`dammitSpec` are the documented meaning.
+Every statement is for ALL inputs and ALL codec oracles `C` (what `codecs.lookup` knows and what
+strict / replace decoding return are parameters). -/
 namespace BS.Props.C07
-open BS.EncodingIn
-theorem placeholder : stripBom [] = ([], none) := by decide
+open BS BS.EncodingIn
+
+/-! ## the candidate list -/
+
+/-- The generator with its mutable `tried` set, its lower-casing and its exclusion set yields exactly
+    the documented list: known definite, BOM, user, declared, utf-8, windows-1252 — minus excluded,
+    first occurrence (ignoring case) only. -/
+theorem encodings_eq_candidates (known : List Name) (bom : Option Name) (user : List Name)
+    (declared : Option Name) (excl : List Name) :
+    encodingsImpl known bom user declared excl = candidates known bom user declared excl := by
+  rw [encodingsImpl_eq_yieldAll, yieldAll_fst]
+  simp [candidates]
+
+example : encodingsImpl [ofS "Latin-1", ofS "utf-8"] (some utf16le) [ofS "LATIN-1", ofS "koi8-r"] (some (ofS "UTF-8"))
+    [ofS "koi8-r"] = [ofS "Latin-1", ofS "utf-8", utf16le, ofS "windows-1252"] := by decide
+
+/-- The generated last-ditch list is the documented one, in the documented order. -/
+theorem fallback_is_utf8_then_windows1252 :
+    Gen.fallbackEncodings = [utf8, ofS "windows-1252"] := by decide +kernel
+
+/-- Candidates come from the sources, in source order (a sublist), and none is excluded. -/
+theorem candidates_in_order (known : List Name) (bom : Option Name) (user : List Name)
+    (declared : Option Name) (excl : List Name) :
+    (candidates known bom user declared excl).Sublist (sources known bom user declared) ∧
+    ∀ c ∈ candidates known bom user declared excl, excl.contains (lower c) = false := by
+  constructor
+  · exact (dedupLower_sublist _).trans List.filter_sublist
+  · intro c hc
+    have := mem_of_mem_dedupLower hc
+    simpa using (List.mem_filter.mp this).2
+
+/-- Each encoding is tried once: no two candidates are equal ignoring case. -/
+theorem each_candidate_once (known : List Name) (bom : Option Name) (user : List Name)
+    (declared : Option Name) (excl : List Name) :
+    (candidates known bom user declared excl).Pairwise (fun a b => lower a ≠ lower b) :=
+  dedupLower_pairwise _
+
+/-- Nothing is lost: every source that is not excluded is represented (ignoring case) by a
+    candidate, and the representative is the FIRST such source. -/
+theorem candidates_complete (known : List Name) (bom : Option Name) (user : List Name)
+    (declared : Option Name) (excl : List Name) :
+    (∀ x ∈ sources known bom user declared, excl.contains (lower x) = false →
+      ∃ c ∈ candidates known bom user declared excl, lower c = lower x) ∧
+    (∀ pre x post, sources known bom user declared = pre ++ x :: post → excl.contains (lower x) = false →
+      (∀ y ∈ pre, lower y ≠ lower x) → x ∈ candidates known bom user declared excl) := by
+  constructor
+  · intro x hx he
+    exact dedupLower_complete _ x (List.mem_filter.mpr ⟨hx, by rw [he]; rfl⟩)
+  · intro pre x post hs he hpre
+    unfold candidates
+    rw [hs, List.filter_append, List.filter_cons]
+    simp only [he, Bool.not_false, if_true]
+    exact dedupLower_first _ _ x (fun y hy => hpre y (List.mem_filter.mp hy).1)
+
+example : candidates [ofS "A", ofS "a"] none [] none [] = [ofS "A", utf8, ofS "windows-1252"] := by
+  rw [← encodings_eq_candidates]; decide
+
+/-! ## the result of UnicodeDammit -/
+
+/-- Refinement: for non-empty bytes, (unicode_markup, original_encoding,
+    contains_replacement_characters) computed by the two loops with `tried_encodings` is the
+    documented meaning over the documented candidate list and the BOM-stripped bytes. -/
+theorem dammit_eq_spec (C : Codecs) (a : Args) (b : Bytes) (hb : b ≠ []) :
+    ((dammit C a (.bytes b)).text, (dammit C a (.bytes b)).originalEncoding,
+      (dammit C a (.bytes b)).containsReplacement) =
+    dammitSpec C (stripBom b).1
+      (candidates (a.known ++ a.override) (stripBom b).2 a.user (findDeclared (stripBom b).1 a.isHtml) (exclSet a)) := by
+  have hne : b.isEmpty = false := by cases b <;> simp_all
+  have h := (dammitBytes_spec C a (stripBom b).1 (stripBom b).2 (findDeclared (stripBom b).1 a.isHtml)).1
+  simp only [detectorEncodings, encodings_eq_candidates] at h
+  simpa [dammit, hne] using h
+
+/-- what "decodes under candidate c" means: `find_codec` resolves the name, and the strict (or
+    replace) decoder returns a string -/
+theorem attempt_iff (C : Codecs) (data : Bytes) (rep : Bool) (c r : Name) (u : PStr) :
+    attempt C data rep c = some (r, u) ↔
+      findCodec C c = some r ∧ (if rep then C.decodeReplace r data else C.decodeStrict r data) = some u := by
+  unfold attempt
+  cases findCodec C c with
+  | none => simp
+  | some r' =>
+    simp only [Option.some.injEq]
+    split
+    · rename_i u' hu
+      simp only [Option.some.injEq, Prod.mk.injEq, hu]
+      constructor
+      · rintro ⟨rfl, rfl⟩; exact ⟨rfl, hu⟩
+      · rintro ⟨rfl, h⟩; rw [hu] at h; exact ⟨rfl, Option.some.inj h⟩
+    · rename_i hu
+      constructor
+      · intro h; cases h
+      · rintro ⟨rfl, h⟩; rw [hu] at h; cases h
+
+/-- The encoding used is the first candidate, in the documented order, under which the bytes decode
+    without error; the text is exactly that decoding of the BOM-stripped bytes; original_encoding is
+    the codec name the candidate resolves to; no replacement is flagged. -/
+theorem dammit_first_clean (C : Codecs) (a : Args) (b : Bytes) (hb : b ≠ [])
+    (pre post : List Name) (c r : Name) (u : PStr)
+    (hc : candidates (a.known ++ a.override) (stripBom b).2 a.user (findDeclared (stripBom b).1 a.isHtml) (exclSet a)
+      = pre ++ c :: post)
+    (hpre : ∀ x ∈ pre, ∀ r', findCodec C x = some r' → C.decodeStrict r' (stripBom b).1 = none)
+    (hr : findCodec C c = some r) (hu : C.decodeStrict r (stripBom b).1 = some u) :
+    (dammit C a (.bytes b)).text = some u ∧ (dammit C a (.bytes b)).originalEncoding = some r ∧
+    (dammit C a (.bytes b)).containsReplacement = false := by
+  have h := dammit_eq_spec C a b hb
+  rw [hc] at h
+  have hf : (pre ++ c :: post).findSome? (attempt C (stripBom b).1 false) = some (r, u) := by
+    rw [List.findSome?_append]
+    have h1 : pre.findSome? (attempt C (stripBom b).1 false) = none := by
+      rw [List.findSome?_eq_none_iff]
+      intro x hx
+      cases hx' : attempt C (stripBom b).1 false x with
+      | none => rfl
+      | some ru =>
+        obtain ⟨r', u'⟩ := ru
+        have := (attempt_iff C _ false x r' u').mp hx'
+        have h2 := hpre x hx r' this.1
+        simp only [Bool.false_eq_true, if_false] at this
+        rw [h2] at this
+        cases this.2
+    rw [h1]
+    have h2 : attempt C (stripBom b).1 false c = some (r, u) := (attempt_iff C _ false c r u).mpr ⟨hr, by simpa using hu⟩
+    simp [h2]
+  simp only [dammitSpec, hf] at h
+  simp only [Prod.mk.injEq] at h
+  exact h
+
+/-- contains_replacement_characters is true exactly when no candidate decodes cleanly and some
+    candidate other than "ascii" decodes with replacement characters. -/
+theorem replacement_iff (C : Codecs) (a : Args) (b : Bytes) (hb : b ≠ []) :
+    (dammit C a (.bytes b)).containsReplacement = true ↔
+      (∀ c ∈ candidates (a.known ++ a.override) (stripBom b).2 a.user (findDeclared (stripBom b).1 a.isHtml) (exclSet a),
+          attempt C (stripBom b).1 false c = none) ∧
+      (∃ c ∈ candidates (a.known ++ a.override) (stripBom b).2 a.user (findDeclared (stripBom b).1 a.isHtml) (exclSet a),
+          c ≠ ascii ∧ (attempt C (stripBom b).1 true c).isSome) := by
+  have h := dammit_eq_spec C a b hb
+  generalize candidates (a.known ++ a.override) (stripBom b).2 a.user (findDeclared (stripBom b).1 a.isHtml) (exclSet a) = cands at h
+  unfold dammitSpec at h
+  cases hf : cands.findSome? (attempt C (stripBom b).1 false) with
+  | some ru =>
+    obtain ⟨r, u⟩ := ru
+    simp only [hf, Prod.mk.injEq] at h
+    obtain ⟨c, hc, hcu⟩ := List.exists_of_findSome?_eq_some hf
+    rw [h.2.2]
+    constructor
+    · intro hh; cases hh
+    · rintro ⟨hall, _⟩
+      rw [hall c hc] at hcu; cases hcu
+  | none =>
+    simp only [hf, Prod.mk.injEq] at h
+    have hall := List.findSome?_eq_none_iff.mp hf
+    cases hg : (cands.filter (· != ascii)).findSome? (attempt C (stripBom b).1 true) with
+    | some ru =>
+      obtain ⟨r, u⟩ := ru
+      simp only [hg, Prod.mk.injEq] at h
+      obtain ⟨c, hc, hcu⟩ := List.exists_of_findSome?_eq_some hg
+      rw [h.2.2]
+      simp only [true_iff]
+      refine ⟨hall, c, (List.mem_filter.mp hc).1, ?_, by simp [hcu]⟩
+      simpa using (List.mem_filter.mp hc).2
+    | none =>
+      simp only [hg, Prod.mk.injEq] at h
+      rw [h.2.2]
+      have hnone := List.findSome?_eq_none_iff.mp hg
+      constructor
+      · intro hh; cases hh
+      · rintro ⟨_, c, hc, hne, hs⟩
+        have := hnone c (List.mem_filter.mpr ⟨hc, by simpa using hne⟩)
+        rw [this] at hs; cases hs
+
+/-- When nothing decodes even with replacement (e.g. everything is excluded) there is no text and no
+    original_encoding — the case `prepare_markup` turns into ParserRejectedMarkup. -/
+theorem no_text_iff (C : Codecs) (a : Args) (b : Bytes) (hb : b ≠ []) :
+    (dammit C a (.bytes b)).text = none ↔
+      (∀ c ∈ candidates (a.known ++ a.override) (stripBom b).2 a.user (findDeclared (stripBom b).1 a.isHtml) (exclSet a),
+          attempt C (stripBom b).1 false c = none ∧ (c ≠ ascii → attempt C (stripBom b).1 true c = none)) := by
+  have h := dammit_eq_spec C a b hb
+  generalize candidates (a.known ++ a.override) (stripBom b).2 a.user (findDeclared (stripBom b).1 a.isHtml) (exclSet a) = cands at h
+  unfold dammitSpec at h
+  cases hf : cands.findSome? (attempt C (stripBom b).1 false) with
+  | some ru =>
+    obtain ⟨r, u⟩ := ru
+    simp only [hf, Prod.mk.injEq] at h
+    obtain ⟨c, hc, hcu⟩ := List.exists_of_findSome?_eq_some hf
+    rw [h.1]
+    constructor
+    · intro hh; cases hh
+    · intro hall
+      rw [(hall c hc).1] at hcu; cases hcu
+  | none =>
+    simp only [hf, Prod.mk.injEq] at h
+    have hall := List.findSome?_eq_none_iff.mp hf
+    cases hg : (cands.filter (· != ascii)).findSome? (attempt C (stripBom b).1 true) with
+    | some ru =>
+      obtain ⟨r, u⟩ := ru
+      simp only [hg, Prod.mk.injEq] at h
+      obtain ⟨c, hc, hcu⟩ := List.exists_of_findSome?_eq_some hg
+      rw [h.1]
+      constructor
+      · intro hh; cases hh
+      · intro hall2
+        have hne : c ≠ ascii := by simpa using (List.mem_filter.mp hc).2
+        rw [(hall2 c (List.mem_filter.mp hc).1).2 hne] at hcu; cases hcu
+    | none =>
+      simp only [hg, Prod.mk.injEq] at h
+      rw [h.1]
+      have hnone := List.findSome?_eq_none_iff.mp hg
+      simp only [true_iff]
+      intro c hc
+      exact ⟨hall c hc, fun hne => hnone c (List.mem_filter.mpr ⟨hc, by simpa using hne⟩)⟩
+
+/-- Each (codec, error mode) pair is attempted at most once: `tried_encodings` has no repeats. -/
+theorem each_tried_once (C : Codecs) (a : Args) (m : Markup) : (dammit C a m).tried.Nodup := by
+  cases m with
+  | str s => simp [dammit]
+  | bytes b =>
+    unfold dammit
+    dsimp only
+    split
+    · exact List.nodup_nil
+    · exact (dammitBytes_spec C a _ _ _).2
+
+/-- str input is passed through untouched, original_encoding None, nothing flagged — whatever the
+    arguments and codecs. -/
+theorem str_passthrough (C : Codecs) (a : Args) (s : PStr) :
+    (dammit C a (.str s)).text = some s ∧ (dammit C a (.str s)).originalEncoding = none ∧
+    (dammit C a (.str s)).containsReplacement = false ∧ (dammit C a (.str s)).declaredHtml = none ∧
+    ∀ fromEnc excl, prepareMarkup C (.str s) fromEnc excl = .ok s none none false := by
+  simp [dammit, prepareMarkup]
+
+/-- The empty byte string gives the empty text (repaired: the unrepaired code gives `"b''"`). -/
+theorem empty_bytes (C : Codecs) (a : Args) :
+    (dammit C a (.bytes [])).text = some [] ∧ (dammit C a (.bytes [])).originalEncoding = none ∧
+    (dammit C a (.bytes [])).containsReplacement = false := by
+  simp [dammit]
+
+/-! ## byte-order marks -/
+
+/-- Each of the five byte-order marks is recognised and stripped (for the UTF-16 marks: when the
+    following code unit exists and is not 00 00, which is how the code tells them from UTF-32LE). -/
+theorem bom_spec (p : Bytes) :
+    stripBom ([0xef, 0xbb, 0xbf] ++ p) = (p, some utf8) ∧
+    stripBom ([0x00, 0x00, 0xfe, 0xff] ++ p) = (p, some utf32be) ∧
+    stripBom ([0xff, 0xfe, 0x00, 0x00] ++ p) = (p, some utf32le) ∧
+    (∀ x y, (x, y) ≠ (0, 0) → stripBom ([0xfe, 0xff, x, y] ++ p) = (x :: y :: p, some utf16be)) ∧
+    (∀ x y, (x, y) ≠ (0, 0) → stripBom ([0xff, 0xfe, x, y] ++ p) = (x :: y :: p, some utf16le)) := by
+  refine ⟨by simp [stripBom], by simp [stripBom], by simp [stripBom], ?_, ?_⟩
+  · intro x y h
+    have : ¬(x = 0 ∧ y = 0) := fun ⟨a, b⟩ => h (by rw [a, b])
+    simp [stripBom, this]
+  · intro x y h
+    have : ¬(x = 0 ∧ y = 0) := fun ⟨a, b⟩ => h (by rw [a, b])
+    simp [stripBom, this]
+
+/-- Whatever `stripBom` does, what is decoded is a suffix of the input, and a name is sniffed only if
+    bytes were removed. -/
+theorem bom_stripped_suffix (b : Bytes) :
+    (∃ k, (stripBom b).1 = b.drop k ∧ ((stripBom b).2 = none → k = 0)) := by
+  unfold stripBom
+  split
+  · exact ⟨2, rfl, fun h => by cases h⟩
+  · split
+    · exact ⟨2, rfl, fun h => by cases h⟩
+    · split
+      · exact ⟨3, rfl, fun h => by cases h⟩
+      · split
+        · exact ⟨4, rfl, fun h => by cases h⟩
+        · split
+          · exact ⟨4, rfl, fun h => by cases h⟩
+          · exact ⟨0, rfl, fun _ => rfl⟩
+
+/-- The model's BOM function agrees with the real `strip_byte_order_mark` on every generated probe
+    (all BOM-like prefixes x short payloads, computed from the live code). -/
+theorem bom_probes_agree : Gen.bomProbes.all (fun t => stripBom t.1 == (t.2.1, t.2.2)) = true := by
+  decide +kernel
+
+/-- With no known-definite encoding, the BOM's encoding is the first candidate (unless excluded). -/
+theorem bom_first_candidate (n : Name) (user : List Name) (declared : Option Name) (excl : List Name)
+    (h : excl.contains (lower n) = false) :
+    ∃ rest, candidates [] (some n) user declared excl = n :: rest := by
+  unfold candidates sources
+  simp only [List.nil_append, Option.toList_some, List.cons_append, List.filter_cons, h, Bool.not_false, if_true,
+    dedupLower_cons]
+  exact ⟨_, rfl⟩
+
+example : stripBom [0xff, 0xfe, 0x61, 0x00] = ([0x61, 0x00], some utf16le) := by decide
+example : stripBom [0xff, 0xfe, 0x00, 0x00, 0x61, 0, 0, 0] = ([0x61, 0, 0, 0], some utf32le) := by decide
+
+/-! ## UTF-8 by default, and what the constructor adds -/
+
+/-- Bytes that are valid UTF-8, with no contrary indication (no known/override/user encodings, no BOM,
+    no declaration, utf-8 not excluded), are decoded as UTF-8. -/
+theorem utf8_default (C : Codecs) (a : Args) (b : Bytes) (u : PStr) (hb : b ≠ [])
+    (hk : a.known = []) (ho : a.override = []) (hu : a.user = [])
+    (hbom : stripBom b = (b, none)) (hdecl : findDeclared b a.isHtml = none)
+    (hx : (exclSet a).contains utf8 = false)
+    (hex : C.codecExists utf8 = true) (hdec : C.decodeStrict utf8 b = some u) :
+    (dammit C a (.bytes b)).text = some u ∧ (dammit C a (.bytes b)).originalEncoding = some utf8 ∧
+    (dammit C a (.bytes b)).containsReplacement = false := by
+  have hfc : findCodec C utf8 = some utf8 := by
+    have h1 : aliasOf utf8 = utf8 := by decide +kernel
+    have h2 : lower utf8 = utf8 := by decide
+    have h3 : utf8.isEmpty = false := by decide
+    simp only [findCodec, codec, h1, h3, hex, h2, Bool.false_eq_true, if_false, if_true]
+  have hl : lower utf8 = utf8 := by decide
+  have hcands : ∃ rest, candidates (a.known ++ a.override) (stripBom b).2 a.user (findDeclared (stripBom b).1 a.isHtml) (exclSet a)
+      = [] ++ utf8 :: rest := by
+    rw [hbom]
+    simp only [hk, ho, hu, hdecl, candidates, sources, fallback_is_utf8_then_windows1252, List.append_nil, Option.toList_none,
+      List.nil_append, List.filter_cons, hl, hx, Bool.not_false, if_true, dedupLower_cons]
+    exact ⟨_, rfl⟩
+  obtain ⟨rest, hc⟩ := hcands
+  refine dammit_first_clean C a b hb [] rest utf8 utf8 u hc (fun x hx => by cases hx) hfc ?_
+  rw [hbom]; exact hdec
+
+/-- `BeautifulSoup(bytes, from_encoding=e)`: `e` is the first candidate (known definite), so if the
+    bytes decode under it that is the text and `original_encoding` its codec name. -/
+theorem from_encoding_first (C : Codecs) (b : Bytes) (e r : Name) (u : PStr) (excl : List Name) (hb : b ≠ [])
+    (he : e ≠ []) (hx : (excl.map lower).contains (lower e) = false)
+    (hr : findCodec C e = some r) (hu : C.decodeStrict r (stripBom b).1 = some u) :
+    ∃ d, prepareMarkup C (.bytes b) (some e) excl = .ok u (some r) d false := by
+  have hne : e.isEmpty = false := by cases e <;> simp_all
+  let a : Args := { known := [e], user := [], exclude := excl, isHtml := true }
+  have hc : ∃ rest, candidates (a.known ++ a.override) (stripBom b).2 a.user (findDeclared (stripBom b).1 a.isHtml) (exclSet a)
+      = [] ++ e :: rest := by
+    simp only [a, candidates, sources, exclSet, List.append_nil, List.cons_append, List.nil_append, List.filter_cons, hx,
+      Bool.not_false, if_true, dedupLower_cons]
+    exact ⟨_, rfl⟩
+  obtain ⟨rest, hc⟩ := hc
+  obtain ⟨h1, h2, h3⟩ := dammit_first_clean C a b hb [] rest e r u hc (fun x hx => by cases hx) hr hu
+  refine ⟨(dammit C a (.bytes b)).declaredHtml, ?_⟩
+  simp only [prepareMarkup, knownOfFromEncoding, hne, Bool.false_eq_true, if_false]
+  show (match (dammit C a (.bytes b)).text with
+    | none => Prepared.rejected
+    | some t => Prepared.ok t (dammit C a (.bytes b)).originalEncoding (dammit C a (.bytes b)).declaredHtml
+        (dammit C a (.bytes b)).containsReplacement) = _
+  rw [h1, h2, h3]
+
+/-- The constructor rejects the markup (ParserRejectedMarkup) exactly when UnicodeDammit has no text. -/
+theorem prepare_rejected_iff (C : Codecs) (b : Bytes) (fromEnc : Option Name) (excl : List Name) :
+    prepareMarkup C (.bytes b) fromEnc excl = .rejected ↔
+      (dammit C { known := knownOfFromEncoding fromEnc, user := [], exclude := excl, isHtml := true } (.bytes b)).text = none := by
+  unfold prepareMarkup
+  dsimp only
+  split
+  · rename_i h; exact ⟨fun _ => h, fun _ => rfl⟩
+  · rename_i t h
+    constructor
+    · intro h'; cases h'
+    · intro h'; rw [h] at h'; cases h'
+
+/-- Rejection really happens: exclude the two last-ditch encodings and give nothing else. -/
+example : prepareMarkup ⟨fun _ => true, fun _ _ => some [], fun _ _ => some []⟩ (.bytes [65]) none
+    [ofS "UTF-8", ofS "windows-1252"] = .rejected := by decide
+
+/-! ## the declared encoding -/
+
+/-- declared_html_encoding reports what the BOM-stripped document declares, independently of which
+    candidate won and of the codecs (repaired behaviour; the unrepaired property returns `None`
+    unless the generator got as far as the declaration step); `None` for XML. -/
+theorem declared_reported (C : Codecs) (a : Args) (b : Bytes) :
+    (dammit C a (.bytes b)).declaredHtml =
+      if a.isHtml then findDeclared (stripBom b).1 true else none := by
+  have hb : ∀ data bom declared, (dammitBytes C a data bom declared).declaredHtml = if a.isHtml then declared else none := by
+    intro data bom declared
+    unfold dammitBytes
+    dsimp only
+    split
+    · rfl
+    · split <;> rfl
+  unfold dammit
+  dsimp only
+  split
+  · cases h : a.isHtml <;> rfl
+  · rw [hb]
+    cases h : a.isHtml <;> rfl
+
 end BS.Props.C07
